@@ -411,6 +411,7 @@ func run(cx *lib.Ctx) {
 			res.Count("dup-trees")
 		}
 	}
+	longFiles(cx)
 	corrParseBody(cx)
 }
 
